@@ -1,8 +1,702 @@
 /-
-  Lemmas/SchedC02.lean — helper lemmas for Props/C02.lean (pass-level reasoning on top of Lemmas/SchedPass.lean).
+  Lemmas/SchedC02.lean — helper lemmas for Props/C02.lean (pass-level reasoning on top of Lemmas/SchedPass.lean):
+  the invariant `C02Inv` carried through the forward pass, the collapse of `prereqLeaves` to the own predecessors
+  when no summary task carries a link, `C02_partial_v2` (the provable form of `C02_partial`) and kernel-checked
+  counterexamples showing that its two extra hypotheses cannot be dropped.
 -/
 import PjVerif.Lemmas.SchedPass
 import PjVerif.Spec.Sched2
 namespace Pj
+
+/-! helper lemmas live in `Pj.C02` (sibling lemma files use some of the same short names) -/
+namespace C02
+
+theorem dayOf_mono {a b : Time} (h : a ≤ b) : dayOf a ≤ dayOf b := by
+  unfold dayOf
+  have h1 : ((a.floor : Int) : Rat) ≤ a := Rat.le_floor_iff.1 (Int.le_refl _)
+  exact Rat.le_floor_iff.2 (Rat.le_trans h1 h)
+
+theorem maxT_ge_left (a b : Time) : a ≤ maxT a b := by unfold maxT; split <;> grind
+theorem maxT_ge_right (a b : Time) : b ≤ maxT a b := by unfold maxT; split <;> grind
+
+theorem foldl_maxT_ge : ∀ (l : List Time) (a : Time), a ≤ l.foldl maxT a ∧ ∀ x ∈ l, x ≤ l.foldl maxT a
+  | [], a => ⟨Rat.le_refl, by simp⟩
+  | y :: ys, a => by
+    obtain ⟨h1, h2⟩ := foldl_maxT_ge ys (maxT a y)
+    simp only [List.foldl_cons]
+    refine ⟨Rat.le_trans (maxT_ge_left a y) h1, ?_⟩
+    intro x hx
+    rcases List.mem_cons.1 hx with rfl | hx
+    · exact Rat.le_trans (maxT_ge_right a x) h1
+    · exact h2 x hx
+
+theorem foldl_maxT_swap : ∀ (l : List Time) (a b : Time), l.foldl maxT (maxT a b) = maxT (l.foldl maxT a) b
+  | [], _, _ => rfl
+  | y :: ys, a, b => by
+    simp only [List.foldl_cons]
+    rw [← foldl_maxT_swap ys (maxT a y) b]
+    congr 1
+    unfold maxT; split <;> split <;> (try split) <;> (try split) <;> grind
+
+/-- `max(ends + [bound])` in the terms of `latestPrereqEnd` -/
+theorem foldl_maxT_maxOpt (l : List Time) (b : Time) :
+    l.foldl maxT b = (match maxOpt l with | some e => maxT e b | none => b) := by
+  cases l with
+  | nil => rfl
+  | cons x xs =>
+    simp only [List.foldl_cons, maxOpt]
+    rw [← foldl_maxT_swap]
+    congr 1
+    unfold maxT; split <;> split <;> grind
+
+theorem maxEnds_ge (σ : SS) (l : List Uid) (m : Time) :
+    m ≤ maxEnds σ l m ∧ ∀ p ∈ l, ∀ e, (σ.f p).end_ = some e → e ≤ maxEnds σ l m := by
+  unfold maxEnds
+  obtain ⟨h1, h2⟩ := foldl_maxT_ge (l.filterMap (fun t => (σ.f t).end_)) m
+  refine ⟨h1, fun p hp e he => h2 e ?_⟩
+  exact List.mem_filterMap.2 ⟨p, hp, he⟩
+
+theorem maxEnds_congr (σ σ' : SS) (l : List Uid) (m : Time) (h : ∀ p ∈ l, σ'.f p = σ.f p) :
+    maxEnds σ' l m = maxEnds σ l m := by
+  unfold maxEnds
+  congr 1
+  induction l with
+  | nil => rfl
+  | cons x xs ih =>
+    simp only [List.filterMap_cons, h x List.mem_cons_self]
+    rw [ih (fun p hp => h p (List.mem_cons_of_mem _ hp))]
+
+
+
+/-- `fillEst` touches neither dates nor rows -/
+theorem fillEst_dates (env : Env) (t : Uid) (σ σ' : SS) (h : fillEst env t σ = .ok σ') :
+    (σ'.f t).start = (σ.f t).start ∧ (σ'.f t).end_ = (σ.f t).end_ ∧ σ'.rows = σ.rows ∧ σ'.reads = σ.reads := by
+  unfold fillEst at h
+  simp only [bind, Except.bind] at h
+  split at h
+  · cases h
+  · rename_i σ1 h1
+    have s1 : (σ1.f t).start = (σ.f t).start ∧ (σ1.f t).end_ = (σ.f t).end_ ∧ σ1.rows = σ.rows ∧ σ1.reads = σ.reads := by
+      split at h1
+      · cases h1; exact ⟨rfl, rfl, rfl, rfl⟩
+      · split at h1
+        · cases h1; simp [setF]
+        · split at h1
+          · cases h1
+          · cases h1; simp [setF]
+    have s2 : (σ'.f t).start = (σ1.f t).start ∧ (σ'.f t).end_ = (σ1.f t).end_ ∧ σ'.rows = σ1.rows ∧ σ'.reads = σ1.reads := by
+      split at h
+      · cases h; exact ⟨rfl, rfl, rfl, rfl⟩
+      · split at h
+        · cases h; simp [setF]
+        · split at h
+          · cases h
+          · cases h; simp [setF]
+    exact ⟨s2.1.trans s1.1, s2.2.1.trans s1.2.1, s2.2.2.1.trans s1.2.2.1, s2.2.2.2.trans s1.2.2.2⟩
+
+/-- the start the pass chooses for a leaf whose start is not fixed -/
+theorem fwdStart_leaf (env : Env) (cal : Cal) (used : Int → Rat) (t : Uid) (v : Time) (σ σ' : SS)
+    (hk : (env.info t).children = []) (hs : (σ.f t).start = none)
+    (h : fwdStart env cal used t v σ = .ok σ') :
+    ∃ s, nearestFwd cal used (maxT (maxT v (env.clock σ.reads)) ((env.info t).minStart.getD epoch)) = .ok s ∧
+      (σ'.f t).start = some s ∧ σ'.rows = σ.rows := by
+  unfold fwdStart at h
+  simp only [hs, hk, List.isEmpty_nil, if_true, bind, Except.bind, now] at h
+  split at h
+  · cases h
+  · rename_i s hn
+    cases h
+    exact ⟨s, hn, by simp [setF], rfl⟩
+
+/-- the rows a leaf reserves lie on or after the day of its start; the start is kept -/
+theorem fwdEnd_leaf (env : Env) (cal : Cal) (used : Int → Rat) (t : Uid) (σ σ' : SS)
+    (hk : (env.info t).children = []) (hu : ∀ d, 0 ≤ used d)
+    (h : fwdEnd env cal used t σ = .ok σ') :
+    (σ'.f t).start = (σ.f t).start ∧
+    ∃ new : List (Int × Rat), σ'.rows = σ.rows ++ new.map (mkRow (env.info t).resource t) ∧
+      ∀ p ∈ new, dayOf (((σ.f t).start).getD epoch) ≤ p.1 := by
+  unfold fwdEnd at h
+  simp only at h
+  split at h
+  · cases h; exact ⟨rfl, [], by simp, by simp⟩
+  · simp only [hk, List.isEmpty_nil, if_true, bind, Except.bind, now] at h
+    split at h
+    · cases h
+    · rename_i r hr
+      obtain ⟨e, rows⟩ := r
+      cases h
+      refine ⟨by simp [setF, addRows], rows, by simp [setF, addRows, mkRow], ?_⟩
+      intro p hp
+      obtain ⟨h0, h1⟩ := shiftFwd_spec cal used _ _ e rows (leftOf_nonneg _ _) hu hr
+      by_cases hz : leftOf { σ with reads := σ.reads + 1 } t = 0
+      · rw [(h0 hz).2] at hp; cases hp
+      · obtain ⟨dayL, dauL, hsp, _⟩ := h1 (by have := leftOf_nonneg { σ with reads := σ.reads + 1 } t; grind)
+        have := (hsp.range p hp).1
+        have hm : dayOf (((σ.f t).start).getD epoch) ≤ dayOf (maxT (((σ.f t).start).getD epoch) (env.clock σ.reads)) :=
+          dayOf_mono (maxT_ge_left _ _)
+        omega
+
+
+theorem fwdPlace_milestone (env : Env) (σ σ' : SS) (t : Uid) (v : Time) (hm : (env.info t).milestone = true)
+    (h : fwdPlace env σ t v = .ok σ') :
+    (σ'.f t).start = some v ∧ (σ'.f t).end_ = some v ∧ σ'.rows = σ.rows := by
+  unfold fwdPlace at h
+  rcases hr : resLookup σ.res (env.info t).resource with ⟨res', cal⟩
+  simp only [hr, hm, if_true, bind, Except.bind, pure, Except.pure] at h
+  cases h
+  simp [markDone, setF]
+
+/-- placement of a leaf whose start is not fixed: the start day is not before the day of the bound handed down,
+    of the clock reading, of `min_start`; all rows lie on or after the start day -/
+theorem fwdPlace_leaf (env : Env) (σ σ' : SS) (t : Uid) (v : Time)
+    (hk : (env.info t).children = []) (hm : (env.info t).milestone = false) (hs : (σ.f t).start = none)
+    (hpos : ∀ r ∈ σ.rows, 0 < r.units) (h : fwdPlace env σ t v = .ok σ') :
+    ∃ s, (σ'.f t).start = some s ∧ dayOf v ≤ dayOf s ∧ dayOf (env.clock σ.reads) ≤ dayOf s ∧
+      (∀ m, (env.info t).minStart = some m → dayOf m ≤ dayOf s) ∧
+      ∃ new : List (Int × Rat), σ'.rows = σ.rows ++ new.map (mkRow (env.info t).resource t) ∧ ∀ p ∈ new, dayOf s ≤ p.1 := by
+  unfold fwdPlace at h
+  rcases hr : resLookup σ.res (env.info t).resource with ⟨res', cal⟩
+  simp only [hr, hm, bind, Except.bind, pure, Except.pure] at h
+  have hu : ∀ d, 0 ≤ usedBy env σ.rows (env.info t).resource t d := fun d => reserved_nonneg _ hpos _ _ _
+  simp only [Bool.false_eq_true, if_false] at h
+  split at h
+  · cases h
+  · rename_i σ1 h1
+    split at h
+    · cases h
+    · rename_i σ2 h2
+      split at h
+      · cases h
+      · rename_i σ3 h3
+        cases h
+        obtain ⟨s, hn, hs1, hr1⟩ := fwdStart_leaf env cal _ t v { σ with res := res' } σ1 hk hs h1
+        obtain ⟨hs2, _, hr2, _⟩ := fillEst_dates env t σ1 σ2 h2
+        obtain ⟨hs3, new, hr3, hnew⟩ := fwdEnd_leaf env cal _ t σ2 σ3 hk hu h3
+        obtain ⟨d, c, hd, _, _, _, hds, _⟩ := nearestFwd_spec cal _ _ s hu hn
+        have hs2' : (σ2.f t).start = some s := hs2.trans hs1
+        refine ⟨s, hs3.trans hs2', ?_, ?_, ?_, new, ?_, ?_⟩
+        · exact Int.le_trans (dayOf_mono (Rat.le_trans (maxT_ge_left _ _) (maxT_ge_left _ _))) (hds ▸ hd)
+        · exact Int.le_trans (dayOf_mono (Rat.le_trans (maxT_ge_right _ _) (maxT_ge_left _ _))) (hds ▸ hd)
+        · intro m hmm
+          rw [hmm] at hd
+          exact Int.le_trans (dayOf_mono (maxT_ge_right _ _)) (hds ▸ hd)
+        · show σ3.rows = _
+          rw [hr3, hr2, hr1]
+        · intro p hp
+          have := hnew p hp
+          rw [hs2'] at this
+          exact this
+
+/-! ### a pass invariant whose placement step also knows that the same-side links are done -/
+
+theorem passList_done_if (step : SS → Uid → Res SS) (P : Uid → Prop) :
+    ∀ (xs : List Uid), (∀ σ x σ', x ∈ xs → step σ x = .ok σ' → Ext σ σ' ∧ (P x → x ∈ σ'.done)) →
+      ∀ (σ σ' : SS), passList step σ xs = .ok σ' → ∀ x ∈ xs, P x → x ∈ σ'.done := by
+  intro xs
+  induction xs with
+  | nil => intro _ σ σ' _ x hx; cases hx
+  | cons y xs ih =>
+    intro hstep σ σ' h x hx hp
+    simp only [passList, bind, Except.bind] at h
+    split at h
+    · cases h
+    · rename_i σ1 h1
+      have hrest := fun σ z σ' (hz : z ∈ xs) => hstep σ z σ' (List.mem_cons_of_mem _ hz)
+      rcases List.mem_cons.1 hx with rfl | hx
+      · have he : Ext σ1 σ' := passList_rel Ext Ext.refl (fun _ _ _ => Ext.trans) step xs
+          (fun σ z σ' hz hh => (hrest σ z σ' hz hh).1) σ1 σ' h
+        exact he.done_sub ((hstep σ x σ1 List.mem_cons_self h1).2 hp)
+      · exact ih hrest σ1 σ' h x hx hp
+
+section generic2
+variable (env : Env) (links kids : Uid → List Uid) (agg : SS → List Uid → Time → Time)
+  (place : SS → Uid → Time → Time → Res SS)
+  (hplace_ext : ∀ σ σ' t m v, t ∉ σ.done → place σ t m v = .ok σ' → Ext σ σ' ∧ σ'.done = σ.done ++ [t])
+include hplace_ext
+
+/-- like `gPass_inv`, with the date handed down tracked by `Q`; the placement step sees the state `σ1` the
+    aggregate was computed in, knows that the links followed are done there, and that nothing happened in between
+    when the task has no children -/
+theorem gPass_inv2 (I : SS → Prop) (Q : Uid → Time → Prop)
+    (hplace : ∀ σ1 σ σ' t m, Q t m → I σ → t ∉ σ.done → (∀ c ∈ kids t, c ∈ σ.done) → Ext σ1 σ →
+      (∀ p ∈ links t, (env.info p).member = (env.info t).member → p ∈ σ1.done) → (kids t = [] → σ = σ1) →
+      place σ t m (agg σ1 (links t) m) = .ok σ' → I σ')
+    (hkids : ∀ σ t c m, Q t m → c ∈ kids t → Q c (agg σ (links t) m))
+    (hlinks : ∀ t p m, Q t m → p ∈ links t → (env.info p).member = (env.info t).member → Q p m) :
+    ∀ (fuel : Nat) (stk : List Uid) (σ : SS) (t : Uid) (m : Time) (σ' : SS),
+      Q t m → I σ → gPass env links kids agg place fuel stk σ t m = .ok σ' → I σ' := by
+  intro fuel
+  induction fuel with
+  | zero => intro stk σ t m σ' _ _ h; cases h
+  | succ fuel ih =>
+    intro stk σ t m σ' hq hi h
+    rcases gPass_succ_cases env links kids agg place fuel stk σ t m σ' h with ⟨hd, rfl⟩ | ⟨hd, hs, σ1, σ2, h1, h2, h3⟩
+    · exact hi
+    · have hx := gPass_extS env links kids agg place hplace_ext fuel (t :: stk)
+      have e1 : ExtS (t :: stk) σ σ1 := passList_extS _ _ _ (fun a x b _ hh => by
+        split at hh
+        · exact (hx _ _ _ _ hh).1
+        · cases hh; exact ExtS.refl _ _) _ _ h1
+      have e2 : ExtS (t :: stk) σ1 σ2 := passList_extS _ _ _ (fun a x b _ hh => (hx _ _ _ _ hh).1) _ _ h2
+      have ht2 : t ∉ σ2.done := (e1.trans e2).2 t List.mem_cons_self hd
+      have i1 : I σ1 := passList_inv I _ _ (fun a x b hxl ha hh => by
+        split at hh
+        · rename_i hm
+          exact ih _ _ _ _ _ (hlinks t x m hq hxl (by simpa using hm)) ha hh
+        · cases hh; exact ha) _ _ hi h1
+      have i2 : I σ2 := passList_inv I _ _ (fun a x b hxl ha hh => ih _ _ _ _ _ (hkids σ1 t x m hq hxl) ha hh) _ _ i1 h2
+      have hk : ∀ c ∈ kids t, c ∈ σ2.done := passList_all_done _ _ (fun a x b _ hh =>
+        ⟨(hx _ _ _ _ hh).1.1, (hx _ _ _ _ hh).2⟩) _ _ h2
+      have hl : ∀ p ∈ links t, (env.info p).member = (env.info t).member → p ∈ σ1.done :=
+        passList_done_if _ (fun p => (env.info p).member = (env.info t).member) _ (fun a x b _ hh => by
+          split at hh
+          · exact ⟨(hx _ _ _ _ hh).1.1, fun _ => (hx _ _ _ _ hh).2⟩
+          · rename_i hm
+            cases hh
+            exact ⟨Ext.refl _, fun hc => absurd (by simpa using hc) hm⟩) _ _ h1
+      have h12 : kids t = [] → σ2 = σ1 := by
+        intro hk0
+        rw [hk0] at h2
+        cases h2
+        rfl
+      exact hplace σ1 σ2 σ' t m hq i2 ht2 hk e2.1 hl h12 h3
+
+end generic2
+
+theorem fwdPass_inv2 (env : Env) (I : SS → Prop) (Q : Uid → Time → Prop)
+    (hplace : ∀ σ1 σ σ' t m, Q t m → I σ → t ∉ σ.done → (∀ c ∈ (env.info t).children, c ∈ σ.done) → Ext σ1 σ →
+      (∀ p ∈ (env.info t).preds, (env.info p).member = (env.info t).member → p ∈ σ1.done) →
+      ((env.info t).children = [] → σ = σ1) →
+      fwdPlace env σ t (maxEnds σ1 (env.info t).preds m) = .ok σ' → I σ')
+    (hkids : ∀ σ t c m, Q t m → c ∈ (env.info t).children → Q c (maxEnds σ (env.info t).preds m))
+    (hlinks : ∀ t p m, Q t m → p ∈ (env.info t).preds → (env.info p).member = (env.info t).member → Q p m)
+    (fuel : Nat) (stk : List Uid) (σ : SS) (t : Uid) (m : Time) (σ' : SS) (hq : Q t m) (hi : I σ)
+    (h : fwdPass env fuel stk σ t m = .ok σ') : I σ' := by
+  rw [fwdPass_eq_gPass] at h
+  exact gPass_inv2 env _ _ _ _ (fwdPlace_ext' env) I Q hplace hkids hlinks fuel stk σ t m σ' hq hi h
+
+/-! ### the invariant behind C02 -/
+
+/-- day `D` is not before the project start, the clock, `min_start` and the ends of the own predecessors -/
+def Lower (env : Env) (σ : SS) (t : Uid) (D : Int) : Prop :=
+  dayOf env.bound ≤ D ∧ dayOf (env.clock 0) ≤ D ∧ (∀ m, (env.info t).minStart = some m → dayOf m ≤ D) ∧
+  ∀ p ∈ (env.info t).preds, ∀ e, (σ.f p).end_ = some e → dayOf e ≤ D
+
+/-- what C02 says about a placed leaf, relative to the current state -/
+def Good (env : Env) (finit : Uid → Fields) (σ : SS) (t : Uid) : Prop :=
+  (∀ p ∈ (env.info t).preds, (env.info p).member = true → p ∈ σ.done) ∧
+  ((env.info t).milestone = true →
+    (σ.f t).start = some (maxEnds σ (env.info t).preds env.bound) ∧
+    (σ.f t).end_ = some (maxEnds σ (env.info t).preds env.bound)) ∧
+  ((env.info t).milestone = false → (finit t).start = none →
+    ∃ s, (σ.f t).start = some s ∧ Lower env σ t (dayOf s) ∧ ∀ r ∈ σ.rows, r.task = t → dayOf s ≤ r.day)
+
+structure C02Inv (env : Env) (finit : Uid → Fields) (σ : SS) : Prop where
+  ledger : LedgerOK env σ
+  doneMem : ∀ x ∈ σ.done, (env.info x).member = true
+  init : ∀ x, x ∉ σ.done → σ.f x = finit x
+  rowsDone : ∀ r ∈ σ.rows, r.task ∈ σ.done
+  good : ∀ t ∈ σ.done, (env.info t).children = [] → Good env finit σ t
+
+/-- the fields of the predecessors of a placed leaf do not change any more: the member ones are done, the
+    others are never placed -/
+theorem preds_frozen (env : Env) (σ σ' : SS) (t : Uid) (hext : Ext σ σ')
+    (hdm : ∀ x ∈ σ'.done, (env.info x).member = true)
+    (hp : ∀ p ∈ (env.info t).preds, (env.info p).member = true → p ∈ σ.done) :
+    ∀ p ∈ (env.info t).preds, σ'.f p = σ.f p := by
+  intro p hpp
+  by_cases hm : (env.info p).member = true
+  · exact hext.frozen p (hp p hpp hm)
+  · exact hext.untouched p (fun hc => hm (hdm p hc))
+
+theorem Good.ext {env : Env} {finit : Uid → Fields} {σ σ' : SS} {t : Uid} (hg : Good env finit σ t)
+    (hext : Ext σ σ') (hdm : ∀ x ∈ σ'.done, (env.info x).member = true) (ht : t ∈ σ.done) :
+    Good env finit σ' t := by
+  obtain ⟨g1, g2, g3⟩ := hg
+  have hpf := preds_frozen env σ σ' t hext hdm g1
+  have htf : σ'.f t = σ.f t := hext.frozen t ht
+  have hme := maxEnds_congr σ σ' (env.info t).preds env.bound hpf
+  refine ⟨fun p hp hm => hext.done_sub (g1 p hp hm), ?_, ?_⟩
+  · intro hm
+    rw [htf, hme]; exact g2 hm
+  · intro hm hs
+    obtain ⟨s, h1, ⟨l1, l2, l3, l4⟩, h3⟩ := g3 hm hs
+    refine ⟨s, by rw [htf]; exact h1, ⟨l1, l2, l3, ?_⟩, ?_⟩
+    · intro p hp e he
+      rw [hpf p hp] at he
+      exact l4 p hp e he
+    · intro r hr hrt
+      obtain ⟨new, hnew, hn⟩ := hext.rows
+      rw [hnew] at hr
+      rcases List.mem_append.1 hr with hr | hr
+      · exact h3 r hr hrt
+      · exact absurd (hrt ▸ ht) (hn r hr).2
+
+/-- one placement (of a member, under the project start as bound) keeps the invariant -/
+theorem place_c02Inv (env : Env) (finit : Uid → Fields)
+    (hclock : ∀ k, dayOf (env.clock k) = dayOf (env.clock 0))
+    (σ σ' : SS) (t : Uid) (hmem : (env.info t).member = true) (hi : C02Inv env finit σ) (ht : t ∉ σ.done)
+    (hl : ∀ p ∈ (env.info t).preds, (env.info p).member = (env.info t).member → p ∈ σ.done)
+    (h : fwdPlace env σ t (maxEnds σ (env.info t).preds env.bound) = .ok σ') : C02Inv env finit σ' := by
+  obtain ⟨hext, hd⟩ := fwdPlace_ext env σ σ' t _ ht h
+  have hdm : ∀ x ∈ σ'.done, (env.info x).member = true := by
+    intro x hx
+    rw [hd] at hx
+    rcases List.mem_append.1 hx with hx | hx
+    · exact hi.doneMem x hx
+    · simp only [List.mem_singleton] at hx
+      subst hx; exact hmem
+  refine ⟨fwdPlace_ledger env σ σ' t _ hi.ledger h, hdm, ?_, ?_, ?_⟩
+  · intro x hx
+    rw [hext.untouched x hx]
+    exact hi.init x (fun hc => hx (hext.done_sub hc))
+  · intro r hr
+    obtain ⟨new, hnew, hn⟩ := hext.rows
+    rw [hnew] at hr
+    rcases List.mem_append.1 hr with hr | hr
+    · exact hext.done_sub (hi.rowsDone r hr)
+    · exact (hn r hr).1
+  · intro t' ht' hk
+    rw [hd] at ht'
+    rcases List.mem_append.1 ht' with ht' | ht'
+    · exact (hi.good t' ht' hk).ext hext hdm ht'
+    · simp only [List.mem_singleton] at ht'
+      subst ht'
+      have g1 : ∀ p ∈ (env.info t').preds, (env.info p).member = true → p ∈ σ.done :=
+        fun p hp hm => hl p hp (hm.trans hmem.symm)
+      have hpf := preds_frozen env σ σ' t' hext hdm g1
+      have hme := maxEnds_congr σ σ' (env.info t').preds env.bound hpf
+      refine ⟨fun p hp hm => hext.done_sub (g1 p hp hm), ?_, ?_⟩
+      · intro hm
+        obtain ⟨h1, h2, _⟩ := fwdPlace_milestone env σ σ' t' _ hm h
+        rw [hme]; exact ⟨h1, h2⟩
+      · intro hm hs
+        have hs' : (σ.f t').start = none := by rw [hi.init t' ht]; exact hs
+        obtain ⟨s, h1, h2, h3, h4, new, hnew, hn⟩ :=
+          fwdPlace_leaf env σ σ' t' _ hk hm hs' hi.ledger.pos h
+        obtain ⟨m1, m2⟩ := maxEnds_ge σ (env.info t').preds env.bound
+        refine ⟨s, h1, ⟨Int.le_trans (dayOf_mono m1) h2, (hclock σ.reads) ▸ h3, h4, ?_⟩, ?_⟩
+        · intro p hp e he
+          rw [hpf p hp] at he
+          exact Int.le_trans (dayOf_mono (m2 p hp e he)) h2
+        · intro r hr hrt
+          rw [hnew] at hr
+          rcases List.mem_append.1 hr with hr | hr
+          · exact absurd (hrt ▸ hi.rowsDone r hr) ht
+          · obtain ⟨p, hp, rfl⟩ := List.mem_map.1 hr
+            exact hn p hp
+
+/-! ### the whole run -/
+
+theorem fwdPass_c02Inv (env : Env) (finit : Uid → Fields) (mem : List Uid)
+    (hmemb : ∀ t, (env.info t).member = true ↔ t ∈ mem)
+    (hkm : ∀ t ∈ mem, ∀ c ∈ (env.info t).children, c ∈ mem)
+    (hsum : ∀ t ∈ mem, (env.info t).children ≠ [] → (env.info t).preds = [])
+    (hclock : ∀ k, dayOf (env.clock k) = dayOf (env.clock 0))
+    (fuel : Nat) (stk : List Uid) (σ : SS) (t : Uid) (σ' : SS) (ht : t ∈ mem) (hi : C02Inv env finit σ)
+    (h : fwdPass env fuel stk σ t env.bound = .ok σ') : C02Inv env finit σ' := by
+  refine fwdPass_inv2 env (C02Inv env finit) (fun t m => t ∈ mem ∧ m = env.bound) ?_ ?_ ?_
+    fuel stk σ t env.bound σ' ⟨ht, rfl⟩ hi h
+  · intro σ1 σ σ' t m hq hi ht _ _ hl h12 hpl
+    obtain ⟨htm, rfl⟩ := hq
+    by_cases hk : (env.info t).children = []
+    · have := h12 hk
+      subst this
+      exact place_c02Inv env finit hclock σ σ' t ((hmemb t).2 htm) hi ht hl hpl
+    · have hp0 := hsum t htm hk
+      refine place_c02Inv env finit hclock σ σ' t ((hmemb t).2 htm) hi ht ?_ ?_
+      · rw [hp0]; intro p hp; cases hp
+      · rw [hp0] at hpl ⊢
+        exact hpl
+  · intro σ t c m hq hc
+    obtain ⟨htm, rfl⟩ := hq
+    have hp0 := hsum t htm (fun h0 => by rw [h0] at hc; cases hc)
+    refine ⟨hkm t htm c hc, ?_⟩
+    rw [hp0]; rfl
+  · intro t p m hq hp hm
+    exact ⟨(hmemb p).1 (hm.trans ((hmemb t).2 hq.1)), hq.2⟩
+
+theorem ancestors_preds_nil (env : Env) (mem : List Uid)
+    (hpar : ∀ t p, t ∈ mem → (env.info t).parent = some p → p ∈ mem ∧ t ∈ (env.info p).children)
+    (hsum : ∀ t ∈ mem, (env.info t).children ≠ [] → (env.info t).preds = []) :
+    ∀ (k : Nat) (t : Uid), t ∈ mem → ∀ x ∈ ancestorsOf env k t, (env.info x).preds = [] := by
+  intro k
+  induction k with
+  | zero => intro t _ x hx; cases hx
+  | succ k ih =>
+    intro t ht x hx
+    unfold ancestorsOf at hx
+    cases hp : (env.info t).parent with
+    | none => rw [hp] at hx; cases hx
+    | some p =>
+      rw [hp] at hx
+      obtain ⟨hpm, htc⟩ := hpar t p ht hp
+      rcases List.mem_cons.1 hx with rfl | hx
+      · exact hsum x hpm (fun h0 => by rw [h0] at htc; cases htc)
+      · exact ih p hpm x hx
+
+theorem flatMap_singleton {α : Type} (g : α → List α) : ∀ (l : List α), (∀ p ∈ l, g p = [p]) → l.flatMap g = l
+  | [], _ => rfl
+  | x :: xs, h => by
+    rw [List.flatMap_cons, h x List.mem_cons_self, flatMap_singleton g xs (fun p hp => h p (List.mem_cons_of_mem _ hp))]
+    rfl
+
+/-- without links on summary tasks the prerequisites of a member leaf are its own predecessors -/
+theorem prereqLeaves_leaf (env : Env) (mem : List Uid)
+    (hpar : ∀ t p, t ∈ mem → (env.info t).parent = some p → p ∈ mem ∧ t ∈ (env.info p).children)
+    (hsum : ∀ t ∈ mem, (env.info t).children ≠ [] → (env.info t).preds = [])
+    (t : Uid) (ht : t ∈ mem) (hlp : ∀ p ∈ (env.info t).preds, (env.info p).children = []) :
+    prereqLeaves env t = (env.info t).preds := by
+  unfold prereqLeaves waitsFor
+  have ha : (ancestorsOf env (env.n + 1) t).flatMap (fun x => (env.info x).preds) = [] := by
+    rw [List.flatMap_eq_nil_iff]
+    exact ancestors_preds_nil env mem hpar hsum _ t ht
+  rw [List.flatMap_cons, ha, List.append_nil]
+  apply flatMap_singleton
+  intro p hp
+  simp [leavesOf, hlp p hp]
+
+/-- the final state of a successful forward run satisfies the C02 invariant, and every member is done -/
+theorem fwdRun_c02 (env : Env) (f0 : Uid → Fields) (res0 : List (Option Nat × Cal)) (o : Output)
+    (hf : env.flagsOK) (hc : env.clockOK) (hs : noSummaryLinks env = true)
+    (h : fwdRun env f0 res0 = .ok o) :
+    ∃ mem σ, members env = some mem ∧ o = { f := σ.f, rows := σ.rows, res := σ.res } ∧
+      C02Inv env (prepare env f0 mem) σ ∧ ∀ t ∈ mem, t ∈ σ.done := by
+  obtain ⟨mem, σ, hm, hp, ho⟩ := fwdRun_ok env f0 res0 o h
+  have hML := memberList_eq env mem hm
+  have hmemb : ∀ t, (env.info t).member = true ↔ t ∈ mem := fun t => by rw [← hML]; exact hf t
+  have hsum : ∀ t ∈ mem, (env.info t).children ≠ [] → (env.info t).preds = [] := by
+    intro t ht hk
+    simp only [noSummaryLinks, hML, List.all_eq_true, Bool.or_eq_true, Bool.and_eq_true, isLeaf,
+      List.isEmpty_iff] at hs
+    rcases hs t ht with h1 | h1
+    · exact absurd h1 hk
+    · exact h1.1
+  refine ⟨mem, σ, hm, ho, ?_⟩
+  have hI : DoneClosed env σ ∧ C02Inv env (prepare env f0 mem) σ := by
+    refine passList_inv (fun s => DoneClosed env s ∧ C02Inv env (prepare env f0 mem) s) _ _ ?_ _ _ ⟨?_, ?_⟩ hp
+    · intro a x b hx ha hh
+      exact ⟨fwdPass_doneClosed env _ _ _ _ _ _ ha.1 hh,
+        fwdPass_c02Inv env _ mem hmemb (members_children env mem hm) hsum hc.2 _ _ _ _ _
+          (members_root env mem hm x hx) ha.2 hh⟩
+    · intro x hx; cases hx
+    · exact ⟨LedgerOK.init env _ rfl, fun x hx => (by cases hx), fun _ _ => rfl, fun r hr => (by cases hr),
+        fun t ht => (by cases ht)⟩
+  have hroots : ∀ r ∈ env.roots, r ∈ σ.done :=
+    passList_all_done _ _ (fun a x b _ hh => fwdPass_ext env _ _ _ _ _ _ hh) _ _ hp
+  refine ⟨hI.2, ?_⟩
+  intro t ht
+  obtain ⟨rt, hrt, l, hl, htl⟩ := (members_spec env mem hm).2 t ht
+  exact hI.1.subtree (hroots rt hrt) _ l hl t htl
+
+theorem prepare_leaf (env : Env) (f0 : Uid → Fields) (mem : List Uid) (t : Uid)
+    (hk : (env.info t).children = []) : prepare env f0 mem t = f0 t := by
+  simp [prepare, hk]
+
+end C02
+
+/-- C02 for inputs without links on summary tasks, given that the parent pointers agree with the children lists
+    and that links are stored on both ends (without either the statement fails, see the counterexamples below) -/
+theorem C02_partial_v2 (env : Env) (f0 : Uid → Fields) (res0 : List (Option Nat × Cal)) (o : Output)
+    (hf : env.flagsOK) (hc : env.clockOK) (hs : noSummaryLinks env = true) (ho : outsideLeaves env = true)
+    (hp : env.parentsOK) (hl : env.linksSym)
+    (h : forwardCalc env f0 res0 = .ok o) :
+    c02Leaf env f0 o = true ∧ c02Milestone env o = true := by
+  obtain ⟨mem, σ, hm, rfl, hI, hdone⟩ := C02.fwdRun_c02 env f0 res0 o hf hc hs (forwardCalc_run env f0 res0 o h)
+  have hML := memberList_eq env mem hm
+  have hs' := hs
+  simp only [noSummaryLinks, hML, List.all_eq_true, Bool.or_eq_true, Bool.and_eq_true, isLeaf,
+    List.isEmpty_iff] at hs'
+  have hsum : ∀ t ∈ mem, (env.info t).children ≠ [] → (env.info t).preds = [] := by
+    intro t ht hk
+    rcases hs' t ht with h1 | h1
+    · exact absurd h1 hk
+    · exact h1.1
+  have hlp : ∀ t ∈ mem, ∀ p ∈ (env.info t).preds, (env.info p).children = [] := by
+    intro t ht p hpp
+    simp only [outsideLeaves, hML, List.all_eq_true, Bool.or_eq_true, List.contains_iff_mem,
+      List.isEmpty_iff] at ho
+    rcases ho t ht p hpp with h1 | h1
+    · rcases hs' p h1 with h2 | h2
+      · exact h2
+      · have := (hl p t).1 hpp
+        rw [h2.2] at this; cases this
+    · exact h1
+  have hpar : ∀ t p, t ∈ mem → (env.info t).parent = some p → p ∈ mem ∧ t ∈ (env.info p).children := by
+    intro t p ht; rw [← hML] at ht ⊢; exact hp t p ht
+  have hpre : ∀ t ∈ mem, (env.info t).children = [] → prereqLeaves env t = (env.info t).preds :=
+    fun t ht _ => C02.prereqLeaves_leaf env mem hpar hsum t ht (hlp t ht)
+  constructor
+  · simp only [c02Leaf, hML, List.all_eq_true, Bool.or_eq_true]
+    intro t ht
+    by_cases hk : (env.info t).children = []
+    · by_cases hmi : (env.info t).milestone = true
+      · exact Or.inl (Or.inl (Or.inr hmi))
+      · cases hst : (f0 t).start with
+        | some s0 => exact Or.inl (Or.inr rfl)
+        | none =>
+          right
+          obtain ⟨_, _, g3⟩ := hI.good t (hdone t ht) hk
+          obtain ⟨s, h1, ⟨l1, l2, l3, l4⟩, h3⟩ := g3 (by simpa using hmi) (by rw [C02.prepare_leaf env f0 mem t hk]; exact hst)
+          simp only [h1, hpre t ht hk]
+          have hrows : ∀ d, d ≤ dayOf s → (rowsOf σ.rows t).all (fun r => decide (d ≤ r.day)) = true := by
+            intro d hd
+            simp only [rowsOf, List.all_eq_true, List.mem_filter, beq_iff_eq, decide_eq_true_eq]
+            intro r hr
+            exact Int.le_trans hd (h3 r hr.1 hr.2)
+          simp only [List.all_eq_true, Bool.and_eq_true, decide_eq_true_eq]
+          intro d hd
+          have hle : d ≤ dayOf s := by
+            simp only [List.mem_append, List.mem_cons, List.mem_map, List.mem_filterMap, Option.mem_toList,
+              Option.map_eq_some_iff, List.not_mem_nil, or_false] at hd
+            rcases hd with ((rfl | rfl) | ⟨m, hm1, rfl⟩) | ⟨p, hp1, e, he, rfl⟩
+            · exact l1
+            · exact l2
+            · exact l3 m hm1
+            · exact l4 p hp1 e he
+          exact ⟨hle, by simpa [List.all_eq_true] using hrows d hle⟩
+    · exact Or.inl (Or.inl (Or.inl (by simpa [isLeaf, List.isEmpty_iff] using hk)))
+  · simp only [c02Milestone, hML, List.all_eq_true, Bool.or_eq_true]
+    intro t ht
+    by_cases hk : (env.info t).children = []
+    · by_cases hmi : (env.info t).milestone = true
+      · right
+        obtain ⟨_, g2, _⟩ := hI.good t (hdone t ht) hk
+        obtain ⟨h1, h2⟩ := g2 hmi
+        have hfold := C02.foldl_maxT_maxOpt ((env.info t).preds.filterMap (fun p => (σ.f p).end_)) env.bound
+        have hlat : latestPrereqEnd env { f := σ.f, rows := σ.rows, res := σ.res } t =
+            maxOpt ((env.info t).preds.filterMap (fun p => (σ.f p).end_)) := by
+          unfold latestPrereqEnd
+          rw [hpre t ht hk]
+        rw [hlat, h1, h2]
+        unfold maxEnds
+        cases hq : maxOpt ((env.info t).preds.filterMap (fun p => (σ.f p).end_)) with
+        | none => rw [hq] at hfold; simp [hfold]
+        | some e => rw [hq] at hfold; simp [hfold]
+      · exact Or.inl (Or.inl (by simpa using hmi))
+    · exact Or.inl (Or.inr (by simpa [isLeaf, List.isEmpty_iff] using hk))
+
+/-! ### where the extra hypotheses come from, and why they are needed -/
+
+/-- `parentsOK` follows from the forest invariants of the graph family (`EnvWF.parentIff`, `EnvWF.rootsTop`) -/
+theorem parentsOK_of_forest (env : Env)
+    (hpi : ∀ c p, (env.info c).parent = some p ↔ c ∈ (env.info p).children)
+    (hrt : ∀ r ∈ env.roots, (env.info r).parent = none) : env.parentsOK := by
+  intro t p ht hp
+  cases hm : members env with
+  | none => simp [memberList, hm] at ht
+  | some mem =>
+    rw [memberList_eq env mem hm] at ht ⊢
+    refine ⟨?_, (hpi t p).1 hp⟩
+    obtain ⟨r, hr, l, hl, htl⟩ := (members_spec env mem hm).2 t ht
+    obtain ⟨l', hl', hsub⟩ := (members_spec env mem hm).1 r hr
+    rw [hl] at hl'
+    cases hl'
+    simp only [subtreeF, Option.map_eq_some_iff] at hl
+    obtain ⟨d, hd, rfl⟩ := hl
+    rcases List.mem_cons.1 htl with rfl | htd
+    · rw [hrt t hr] at hp; cases hp
+    · have htc := descF_sound _ _ _ _ hd t htd
+      have key : ∀ b, t ∈ (env.info b).children → b = p := by
+        intro b hb
+        have := (hpi t b).2 hb
+        rw [hp] at this
+        cases this; rfl
+      rcases htc.tail_cases with h1 | ⟨b, hb1, hb2⟩
+      · rw [← key r h1]; exact hsub r List.mem_cons_self
+      · rw [← key b hb2]
+        exact hsub b (List.mem_cons_of_mem _ (descF_complete _ _ _ _ hd b hb1))
+
+namespace C02Cex
+
+/-- a member leaf whose `parent` field points at a task outside the WBS that has a predecessor -/
+def env1 : Env :=
+  { n := 3,
+    info := fun u => match u with
+      | 0 => { tid := 1, parent := some 1, children := [], preds := [], succs := [], member := true, resource := none, milestone := false, minStart := none }
+      | 1 => { tid := 2, parent := none, children := [], preds := [2], succs := [], member := false, resource := none, milestone := false, minStart := none }
+      | 2 => { tid := 3, parent := none, children := [], preds := [], succs := [1], member := false, resource := none, milestone := false, minStart := none }
+      | _ => { tid := 0, parent := none, children := [], preds := [], succs := [], member := false, resource := none, milestone := false, minStart := none },
+    roots := [0], balance := false, defaultEst := 1, clock := fun _ => 100, bound := 100 }
+
+def f1 : Uid → Fields := fun u => match u with
+  | 2 => { start := some 1000, end_ := some 1000, est := none, spent := none }
+  | _ => { start := none, end_ := none, est := none, spent := none }
+
+/-- a milestone with a child, and a link stored on the successor's side only -/
+def env2 : Env :=
+  { n := 3,
+    info := fun u => match u with
+      | 0 => { tid := 1, parent := none, children := [1], preds := [], succs := [], member := true, resource := none, milestone := true, minStart := none }
+      | 1 => { tid := 2, parent := some 0, children := [], preds := [], succs := [], member := true, resource := some 0, milestone := false, minStart := none }
+      | 2 => { tid := 3, parent := none, children := [], preds := [0], succs := [], member := true, resource := some 1, milestone := false, minStart := none }
+      | _ => { tid := 0, parent := none, children := [], preds := [], succs := [], member := false, resource := none, milestone := false, minStart := none },
+    roots := [0, 2], balance := false, defaultEst := 100, clock := fun _ => 100, bound := 100 }
+
+def f2 : Uid → Fields := fun _ => { start := none, end_ := none, est := none, spent := none }
+
+end C02Cex
+
+open C02Cex in
+/-- `C02_partial` as stated in Props/C02.lean is false: nothing ties the `parent` fields to the `children` lists -/
+theorem C02_partial_needs_parentsOK :
+    ∃ env f0 res0 o, env.flagsOK ∧ env.clockOK ∧ noSummaryLinks env = true ∧ outsideLeaves env = true ∧
+      env.linksSym ∧ forwardCalc env f0 res0 = .ok o ∧ c02Leaf env f0 o = false := by
+  have hev : (match forwardCalc env1 f1 [] with
+     | .ok o => c02Leaf env1 f1 o == false
+     | .error _ => false) = true := by decide +kernel
+  cases hc : forwardCalc env1 f1 [] with
+  | error e => rw [hc] at hev; cases hev
+  | ok o =>
+    rw [hc] at hev
+    refine ⟨env1, f1, [], o, ?_, ⟨fun _ _ _ => Rat.le_refl, fun _ => rfl⟩, by decide +kernel, by decide +kernel, ?_, hc,
+      by simpa using hev⟩
+    · intro t
+      have hm : memberList env1 = [0] := by decide +kernel
+      rw [hm]
+      match t with
+      | 0 => simp [env1]
+      | 1 => simp [env1]
+      | 2 => simp [env1]
+      | (k+3) => simp [env1]
+    · intro a b
+      match a, b with
+      | 0, 0 | 0, 1 | 0, 2 | 0, (k+3) => simp [env1]
+      | 1, 0 | 1, 1 | 1, 2 | 1, (k+3) => simp [env1]
+      | 2, 0 | 2, 1 | 2, 2 | 2, (k+3) => simp [env1]
+      | (j+3), 0 | (j+3), 1 | (j+3), 2 | (j+3), (k+3) => simp [env1]
+
+open C02Cex in
+/-- with `parentsOK` but without `linksSym` the statement is still false -/
+theorem C02_partial_needs_linksSym :
+    ∃ env f0 res0 o, env.flagsOK ∧ env.clockOK ∧ noSummaryLinks env = true ∧ outsideLeaves env = true ∧
+      env.parentsOK ∧ forwardCalc env f0 res0 = .ok o ∧ c02Leaf env f0 o = false := by
+  have hev : (match forwardCalc env2 f2 [] with
+     | .ok o => c02Leaf env2 f2 o == false
+     | .error _ => false) = true := by decide +kernel
+  have hm : memberList env2 = [0, 1, 2] := by decide +kernel
+  cases hc : forwardCalc env2 f2 [] with
+  | error e => rw [hc] at hev; cases hev
+  | ok o =>
+    rw [hc] at hev
+    refine ⟨env2, f2, [], o, ?_, ⟨fun _ _ _ => Rat.le_refl, fun _ => rfl⟩, by decide +kernel, by decide +kernel, ?_, hc,
+      by simpa using hev⟩
+    · intro t
+      rw [hm]
+      match t with
+      | 0 => simp [env2]
+      | 1 => simp [env2]
+      | 2 => simp [env2]
+      | (k+3) => simp [env2]
+    · intro t p ht hp
+      rw [hm] at ht ⊢
+      match t with
+      | 0 => simp [env2] at hp
+      | 1 =>
+        simp only [env2, Option.some.injEq] at hp
+        subst hp
+        simp [env2]
+      | 2 => simp [env2] at hp
+      | (k+3) => simp at ht
 
 end Pj
